@@ -4,6 +4,7 @@
 From Coq Require Import ZArith Reals List.
 From OV Require Import Base.Num Base.NumR Base.NumZ Base.Py Model.SchedState Gen.Sched Proofs.SchedP Proofs.SchedR.
 From OV Require Import Model.OptimState Model.OptimRef Gen.Optim Proofs.OptimSM Proofs.OptimTrace Proofs.OptimMore Model.ClipNum Proofs.ClipR.
+From OV Require Import Gen.Ghost Proofs.GhostBackward.
 Import ListNotations.
 
 (* construction (last_epoch = -1) leaves the scheduled value unchanged, k = 0 *)
@@ -112,6 +113,18 @@ Proof.
   intros Hm Hn. destruct (pl_bounds_in_force_norm mgn Cs Hm Hn) as (A & B). split; [exact A|]. split; [exact B|]. exact (pl_bounds_unchanged Cs Hn).
 Qed.
 
+(* ghost clipping: the clipping coefficients are computed by the wrapped module from its own max_grad_norm; on the statement list
+   generated from DPTensorFastGradientClipping.backward that copy is first set to the optimizer's value (the scheduled one, which scales the
+   noise), whatever it was before; the adaptive variant uses the freshly updated norm for both; without the synchronisation the stale copy is read *)
+Theorem C17_ghost_clips_with_value_in_force {B} (module_bound optimizer_bound upd : B) :
+  fold_left (bound_step upd) ghost_backward_ops (module_bound, optimizer_bound, None) = (optimizer_bound, optimizer_bound, Some optimizer_bound) /\
+  fold_left (bound_step upd) ghost_adaptive_backward_ops (module_bound, optimizer_bound, None) = (upd, upd, Some upd).
+Proof. split; [exact (ghost_clips_with_optimizer_bound module_bound optimizer_bound upd) | exact (ghost_adaptive_clips_with_updated_bound module_bound optimizer_bound upd)]. Qed.
+Theorem C17_ghost_unsynced_refuted : exists (mb ob : nat),
+  fold_left (bound_step 0%nat) (filter (fun o => match o with GSyncModuleBound => false | _ => true end) ghost_backward_ops) (mb, ob, None)
+  <> (ob, ob, Some ob).
+Proof. exact ghost_unsynced_refuted. Qed.
+
 Example C17_nonvacuous :
   let s1 := mkss 0%Z 3%Z 2%Z 5%Z (fun k => k) 5%Z in
   f_last_epoch s1 = 0%Z /\ (0 < f_step_size s1)%Z /\
@@ -134,6 +147,8 @@ Print Assumptions C17_iter_is_power_r.
 Print Assumptions C17_iter_is_power_l.
 Print Assumptions C17_scheduled_value_is_used.
 Print Assumptions C17_perlayer_bounds_follow_value_in_force.
+Print Assumptions C17_ghost_clips_with_value_in_force.
+Print Assumptions C17_ghost_unsynced_refuted.
 Print Assumptions C17_restore_exact_partial.
 Print Assumptions C17_clip_restore_exact_partial.
 Print Assumptions C17_lambda_restore_next.
